@@ -1,0 +1,15 @@
+//go:build verif
+
+// SPDX-License-Identifier: Apache-2.0
+// Copyright Authors of Cilium
+
+package internal
+
+// VerifLockHook is set by the verification harness (build tag verif).
+var VerifLockHook func(event string, seq uint64)
+
+func verifLock(event string, seq uint64) {
+	if h := VerifLockHook; h != nil {
+		h(event, seq)
+	}
+}
